@@ -273,6 +273,8 @@ class Path:
         if v is None:
             return False
         if isinstance(v, SV):
+            if v.kind == 'str':
+                return self.branch(v.t != self.strconst(''))      # a string is true unless it is empty
             return self.branch(boolterm(v))
         if isinstance(v, Opt):
             if self.branch(v.isnone):
